@@ -103,6 +103,12 @@ def build(ws, kind):
         rx.base_stations = base
         rx.channels = [10.0, 20.0]
         return rx
+    if kind == "root":
+        # the Root group itself, holding an object and a group
+        p = Points.create(ws, name="under-root", vertices=_verts())
+        p.add_data({"a": {"values": np.arange(6.0)}})
+        ContainerGroup.create(ws, name="grp-under-root")
+        return ws.root
     if kind == "group":
         g = ContainerGroup.create(ws, name="grp")
         p = Points.create(ws, name="inner", vertices=_verts(), parent=g)
@@ -129,7 +135,7 @@ class CopiesKeepFilesValid(Contract):
     bounded_scope = ("one object per kind in {points, curve, surface, grid2d, geoimage, block model, octree, drape model, drillhole, airborne TEM pair, DC/IP pair, tipper pair, group of objects} with data; "
                      "copy() and copy_from_extent() (box keeps part / keeps all / misses everything, plain and inverse) into {the same workspace, a group of another workspace, the other workspace itself}; "
                      "after closing, both files satisfy every structural validity clause, every stored node of the source (entities, data, the types they use with their value maps) is unchanged, and the source file's entity count is unchanged by copies that go elsewhere (exhaustive over the listed combinations: "
-                     "13 kinds x 3 targets x (1 + 3 x 2) operations)")
+                     "13 kinds x 3 targets x (1 + 3 x 2) operations, plus the Root group as the source x 2 targets x 2 operations); what the target held before is still found by a later reader")
 
     def native_cases(self, tier, rng):
         for kind in KINDS:
@@ -138,6 +144,10 @@ class CopiesKeepFilesValid(Contract):
                 for ext in EXTENTS:
                     for inverse in (False, True):
                         yield {"kind": kind, "target": target, "op": "extent", "extent": ext, "inverse": inverse}
+        # the Root group as the source (a file has one Root: whatever the copy becomes, the target keeps its own)
+        for target in ("other-group", "other-workspace"):
+            yield {"kind": "root", "target": target, "op": "copy"}
+            yield {"kind": "root", "target": target, "op": "extent", "extent": "keeps-all", "inverse": False}
 
     def native_check(self, case):
         from geoh5py.groups import ContainerGroup
@@ -161,9 +171,12 @@ class CopiesKeepFilesValid(Contract):
             before = IndependentSurveysFrame._digests(src, own)
             with Workspace.create(dst) as other:
                 ContainerGroup.create(other, name="clips")
+                from geoh5py.objects import Points as _P
+
+                _P.create(other, name="resident", vertices=_verts(3, off=7.0))
             failed = None
             with Workspace(src, mode="r+") as ws, Workspace(dst, mode="r+") as other:
-                obj = [e for e in list(ws.objects) + list(ws.groups) if e.name in ("pts", "crv", "srf", "grd", "img", "bm", "oct", "drape", "dh", "rx", "pot", "tip", "grp")][0]
+                obj = ws.root if case["kind"] == "root" else [e for e in list(ws.objects) + list(ws.groups) if e.name in ("pts", "crv", "srf", "grd", "img", "bm", "oct", "drape", "dh", "rx", "pot", "tip", "grp")][0]
                 parent = {"same": None, "other-group": other.get_entity("clips")[0], "other-workspace": other}[case["target"]]
                 try:
                     if case["op"] == "copy":
@@ -178,6 +191,11 @@ class CopiesKeepFilesValid(Contract):
                 bad = wf_file(path)
                 if bad:
                     return f"after {_what(case)}{' (which raised ' + failed + ')' if failed else ''} the {label} file is not a valid geoh5 file: {bad}"
+            # what the target workspace held before is still there for a later reader
+            with Workspace(dst, mode="r") as o:
+                seen = {e.name for e in list(o.objects) + list(o.groups)}
+            if not {"resident", "clips"} <= seen:
+                return f"after {_what(case)} a reader of the target file no longer finds {sorted({'resident', 'clips'} - seen)} (it held them before)"
             # frame: a copy (masked or not, wherever it goes) leaves every stored node of its source as it was --
             # attributes, metadata, values, and the types the source uses (value maps included); only child lists of containers grow
             after = IndependentSurveysFrame._digests(src, own)
